@@ -21,6 +21,11 @@ type caseLog struct {
 	nX     int
 	wcond  *sync.Cond
 	faults int // T or X events so far
+	// injected write failures: the attempts (0-based, counted over all client writes) that fail with 0 bytes
+	// written while the connection stays usable; tokens of the calls whose write was failed
+	failAt   map[int]bool
+	attempts int
+	failed   map[int]bool
 }
 
 type wreq struct {
@@ -32,7 +37,7 @@ type wreq struct {
 }
 
 func newCaseLog() *caseLog {
-	l := &caseLog{wrote: map[int]wreq{}}
+	l := &caseLog{wrote: map[int]wreq{}, failAt: map[int]bool{}, failed: map[int]bool{}}
 	l.wcond = sync.NewCond(&l.mu)
 	return l
 }
@@ -104,13 +109,28 @@ func parseRequest(b []byte) (key, ver int16, cid int32, token int, ok bool) {
 }
 
 // logWrite is called by the client side of the connection with the bytes of one conn.Write (= one request).
-func (l *caseLog) logWrite(b []byte) {
+func (l *caseLog) logWrite(b []byte) error {
 	key, _, cid, token, ok := parseRequest(b)
 	l.mu.Lock()
 	defer l.mu.Unlock()
+	n := l.attempts
+	l.attempts++
+	if l.failAt[n] {
+		// nothing reaches the wire, nothing is logged: the model's rule for a failed send is "no promise, id not advanced"
+		l.failed[token] = true
+		hv, ex := 0, 1
+		if key == 46 {
+			hv = 1
+		}
+		if key == 0 {
+			ex = 0
+		}
+		l.lines = append(l.lines, [2]string{fmt.Sprintf("WF %d %d %d", token, hv, ex), "ok"})
+		return &net.OpError{Op: "write", Net: "mem", Err: errInjectedWrite}
+	}
 	if !ok {
 		l.lines = append(l.lines, [2]string{"W ? unparsable " + hex.EncodeToString(b), "ok"})
-		return
+		return nil
 	}
 	hv := 0
 	if key == 46 {
@@ -125,7 +145,10 @@ func (l *caseLog) logWrite(b []byte) {
 	}
 	l.lines = append(l.lines, [2]string{fmt.Sprintf("W %d %d %d %d", token, cid, hv, ex), "ok"})
 	l.wcond.Broadcast()
+	return nil
 }
+
+var errInjectedWrite = fmt.Errorf("injected write failure, 0 bytes written")
 
 func (l *caseLog) waitWrites(n int, d time.Duration) {
 	deadline := time.Now().Add(d)
@@ -199,7 +222,7 @@ type memConn struct {
 	rd, wr    *half
 	dmu       sync.Mutex
 	rdl       time.Time
-	onWrite   func([]byte)
+	onWrite   func([]byte) error
 	onTimeout func()
 }
 
@@ -259,7 +282,9 @@ func (c *memConn) Write(p []byte) (int, error) {
 	}
 	h.mu.Unlock()
 	if c.onWrite != nil {
-		c.onWrite(p)
+		if err := c.onWrite(p); err != nil {
+			return 0, err
+		}
 	}
 	h.put(p, nil)
 	return len(p), nil
@@ -299,7 +324,9 @@ type tcpClient struct {
 }
 
 func (c *tcpClient) Write(p []byte) (int, error) {
-	c.lg.logWrite(p)
+	if err := c.lg.logWrite(p); err != nil {
+		return 0, err
+	}
 	return c.Conn.Write(p)
 }
 
